@@ -11,6 +11,7 @@ Directives (each on its own line, starting at column 0 or indented):
      //@spec                                 following lines go between signature and body
      //@loop <n>                             following lines go before the body brace of the n-th loop (source order)
      //@enter                                following lines go right after the body's opening brace line
+     //@tail                                 following lines go before the last non-blank line of the body (one-line tail expression)
      //@before <substring>[ ##k]             following lines go before the (k-th) body line containing substring
      //@after <substring>[ ##k]              ... after that line
   //@end
@@ -153,6 +154,8 @@ def _render_file(R, path, repo, canary_fn, canary_kind, depth):
                         cur = sp.spec
                     elif d2 == 'enter':
                         cur = sp.enter
+                    elif d2 == 'tail':
+                        cur = sp.tail
                     elif d2.startswith('loop'):
                         cur = sp.loops.setdefault(int(d2.split()[1]), [])
                     elif d2.startswith('before') or d2.startswith('after'):
